@@ -306,7 +306,7 @@ pub fn run(ctx: &Ctx) {
         ctx,
         "hours",
         65536 * 3,
-        SweepOpts { chunk: 512, ..Default::default() },
+        SweepOpts { chunk: 512, deadline_secs: Some(60), ..Default::default() },
         |i| {
             let (n4, n6, v6_first) = lists[(i / 65536) as usize];
             RtCase { password: "mysecretkey".into(), n4, n6, v6_first, hour: (i % 65536) as u32, embedding: 0, sep_pos: -1 }
@@ -428,7 +428,7 @@ pub fn run(ctx: &Ctx) {
     for b in bodies {
         texts.push(TextCase { password: "textkey".into(), parts: vec!["B".into(), b, "E".into()] });
     }
-    let st = sweep_list(ctx, "texts", &texts, SweepOpts { trivial_classes: vec![1], ..Default::default() }, run_text);
+    let st = sweep_list(ctx, "texts", &texts, SweepOpts { trivial_classes: vec![1], deadline_secs: Some(60), ..Default::default() }, run_text);
     let _ = st;
     ctx.assume(&format!("passwords with overlapping begin/end markers found among pw0..pw1999: {:?}", overl));
     ctx.assume("a beacon's integrity byte is 8 bits: substituted bodies may legitimately decode to other addresses (only panic freedom is demanded for them)");
